@@ -142,8 +142,10 @@ pub fn search(seed: u64, budget: &Budget, thorough: bool) -> (u64, Option<(Strin
         let (ms, mm) = (*rng.pick(&[1i32, 2, 5]), *rng.pick(&[-1i32, -2, -4, 0]));
         let (go, ge) = (*rng.pick(&[0i32, -1, -3, -5]), *rng.pick(&[0i32, -1, -2]));
         tried += 1;
+        let input = format!("sc={},{},{},{} x={} y={} warm={}", ms, mm, go, ge, hex(&x), hex(&y), hex(&warm));
+        note_current(&input);
         if let Err(e) = check(&x, &y, ms, mm, go, ge, &warm) {
-            return (tried, Some((format!("sc={},{},{},{} x={} y={} warm={}", ms, mm, go, ge, hex(&x), hex(&y), hex(&warm)), e)));
+            return (tried, Some((input, e)));
         }
     }
     (tried, None)
